@@ -7,8 +7,9 @@ open TomlVerif TomlVerif.Model TomlVerif.Model.Cst TomlVerif.Model.Encode TomlVe
     array-of-tables spans) -/
 def allSpans (d : CDoc) : List (Nat × Nat) := TomlVerif.Lemmas.Cst03.allSpans d
 
-/-- T14_bounds, full strength (document level; not proved here, checked by the differential run:
-    the harness's `oracle=` field re-checks bounds and char boundaries of every span) -/
+/-- T14_bounds, full strength (document level). Proved as `T14_bounds : T14_bounds_statement` in
+    `Props/C14Doc.lean`, together with the value-level bounds and nesting for ALL values
+    (`T14_value_bounds`, `T14_value_nesting`, `T14_doc_nesting`). -/
 def T14_bounds_statement : Prop :=
   ∀ (s : Bytes) (d : CDoc), parseCst s = some d → ∀ sp ∈ allSpans d, sp.1 ≤ sp.2 ∧ sp.2 ≤ s.length
 
